@@ -111,9 +111,23 @@ def suite_labels(seed, tier):
                 fam.append(row)
             batches = [fam] + batches[:1]
             cfg = {**cfg, "thr": min(cfg["thr"], 0.5), "crit": "diameter", "tol": None}
+        wide = (_case % 60 == 13)         # dense, wide fingerprints: intersections beyond 255 bits
+        if wide:
+            nf = rng.choice([320, 512, 1000])
+            basew = [1 if rng.random() < 0.85 else 0 for _ in range(nf)]
+            fam = []
+            for _k in range(8):
+                row = list(basew)
+                for j in rng.sample(range(nf), 6):
+                    row[j] ^= 1
+                fam.append(row)
+            other = [[1 if rng.random() < 0.5 else 0 for _ in range(nf)] for _k in range(4)]
+            batches = [fam + other]
+            cfg = {**cfg, "crit": "diameter", "tol": None, "thr": 0.6}
         Q = []
         while len(Q) < rng.randint(1, 5):
-            q = [rng.randint(0, 1) for _ in range(nf)]
+            q = [rng.randint(0, 1) for _ in range(nf)] if not wide else \
+                [b ^ (1 if rng.random() < 0.02 else 0) for b in rng.choice(batches[0])]
             if any(q):
                 Q.append(q)
         packed = rng.random() < 0.5
